@@ -36,7 +36,14 @@ def _cfgs(tier):
 
 
 def strategy(tier):
-    return st.one_of([K.script_case(c) for c in _cfgs(tier)] + [tdm_case(tier)])
+    return st.one_of([K.script_case(c) for c in _cfgs(tier)] + [tdm_case(tier), files_case(tier)])
+
+
+@st.composite
+def files_case(draw, tier):
+    """A program obtained with blackbird.load from a generated include tree (C07's generator)."""
+    from . import c07
+    return {"c07": draw(c07.case(tier)), "layout": draw(K.layout_light())}
 
 
 @st.composite
@@ -88,23 +95,54 @@ def _params_in_operations(p):
     return names
 
 
-def check(c):
-    script = c["script"]
+def _load_include_tree(c):
+    """(text for reports, program) of a generated include tree, or raises Discard."""
+    import os
+    import shutil
+    import tempfile
+    from . import c07
+    from ..model import refsem, render
+    root = tempfile.mkdtemp(prefix="bbv-c01-")
     try:
-        K.reference(script)
-    except K.Discard as d:
-        return Outcome(discard=d.reason)
-    text = K.render_case(c)
-    feats, nstmt = K.features(script)
-    out = Outcome(key=text, sample={"script": text}, classes=sorted(feats))
-    p, e = K.safe_loads(text)
-    if e is not None:
-        # C02's business; here the script simply yields no program to round-trip
-        return Outcome(discard="load-failed:" + type(e).__name__)
+        try:
+            texts, ref, multi = c07.build(c["c07"], root)
+        except (refsem.OutOfDomain, refsem.RefModelError, render.RenderError):
+            raise K.Discard("include-tree-outside-domain")
+        for rel, t in texts.items():
+            path = os.path.join(root, rel)
+            os.makedirs(os.path.dirname(path), exist_ok=True)
+            with open(path, "w", encoding="ascii", newline="") as f:
+                f.write(t)
+        p, e = K.safe_load_file(os.path.join(root, c["c07"]["main"]))
+        if e is not None:
+            raise K.Discard("load-failed:" + type(e).__name__)
+        return "\n".join("### %s\n%s" % (k, v.replace(root, "<ROOT>")) for k, v in sorted(texts.items())), p
+    finally:
+        shutil.rmtree(root, ignore_errors=True)
+
+
+def check(c):
+    if "c07" in c:
+        text, p = _load_include_tree(c)
+        feats = {"include-tree", "loop"} if any(cl["loop"] for cl in c["c07"]["calls"]) else {"include-tree"}
+        out = Outcome(key=text, sample={"files": text}, classes=sorted(feats))
+    else:
+        script = c["script"]
+        try:
+            K.reference(script)
+        except K.Discard as d:
+            return Outcome(discard=d.reason)
+        text = K.render_case(c)
+        feats, nstmt = K.features(script)
+        out = Outcome(key=text, sample={"script": text}, classes=sorted(feats))
+        p, e = K.safe_loads(text)
+        if e is not None:
+            # C02's business; here the script simply yields no program to round-trip
+            return Outcome(discard="load-failed:" + type(e).__name__)
     sym_problem = _symbols_cancel(p)
     if sym_problem:
         return Outcome(discard=sym_problem)
-    marks = feats & {"param", "register", "list-kwarg", "options", "loop"}
+    marks = feats & {"param", "register", "list-kwarg", "options", "loop", "include-tree"}
     if any(isinstance(a, np.ndarray) for op in p.operations for a in list(op.get("args", [])) + list((op.get("kwargs") or {}).values())):
         marks = marks | {"array-arg"}
         out.classes.append("array-argument")
